@@ -1565,6 +1565,33 @@ end builder
 #print axioms builder_sound
 #print axioms bare_outflows_witness
 
+
+/-! ### Wave 6: the generated `LERP` on unevenly spaced tables -/
+
+/-- a discharged row obligation: the REAL `LERP` returned, on every probed (table, abscissa), the value of the model's
+`lerp` — the function whose clamping / interior / totality `lerp_clamped_left`, `lerp_clamped_right`, `lerp_interior`,
+`lerp_total` describe -/
+theorem lerpRows_sound (rows : List LerpRow) (h : lerpRowsOK rows = true) :
+    ∀ r ∈ rows, lerp intC r.pts r.x = some r.y := by
+  intro r hr
+  simp only [lerpRowsOK, Bool.and_eq_true, List.all_eq_true] at h
+  have := h.1 r hr
+  simpa using this
+
+/-- **witness: segment search with a correction of at most one.** Table x = 0, 1, 2, 3, 20 (y = 0, 10, 0, 10, 61): at x = 3
+the proportional guess is segment 0, one correction reaches segment 1 (1 → 2) and extrapolates it to −10; `LERP` is 10 (the
+knot). At x = 10 (inside the long last segment, guess 2) the bounded search is right — the defect needs a skewed table AND
+an abscissa two or more segments away from the guess. -/
+theorem lerp_bounded_witness :
+    let tbl : List (Int × Int) := [(0, 0), (1, 10), (2, 0), (3, 10), (20, 61)]
+    lerp intC tbl 3 = some 10 ∧ lerpBounded tbl 3 = some (-10) ∧
+    lerp intC tbl 2 = some 0 ∧ lerpBounded tbl 2 = some 0 ∧
+    lerp intC tbl 10 = some 31 ∧ lerpBounded tbl 10 = some 31 := by
+  decide +kernel
+
+#print axioms lerpRows_sound
+#print axioms lerp_bounded_witness
+
 #print axioms xmile_run_eq_euler
 #print axioms C04_full_of_good
 #print axioms C04_partial
